@@ -57,11 +57,19 @@ class PriorityModel:
 
     def new(self, interp, cls, args, kwargs, fr):
         obj = SObj(priority.PriorityTree, {}, tag="priority")
+        # the capacity the tree was built with (the library's default is 1000 nodes; the root
+        # counts): contracts can ask that it has not been reduced (get_capacity)
+        cap = kwargs.get("maximum_streams", args[0] if args else self.MAX)
+        obj.fields["capacity"] = cap
         obj.fields["has"] = z3.Store(z3.K(I, z3.BoolVal(False)), 0, z3.BoolVal(True))
         obj.fields["active"] = z3.K(I, z3.BoolVal(False))
         obj.fields["n"] = z3.IntVal(1)
         interp.register_shared(obj)
         return obj
+
+    def get_capacity(self, interp, obj, fr):
+        c = obj.fields.get("capacity", self.MAX)
+        return c if not isinstance(c, int) else mk_int(z3.IntVal(c))
 
     def havoc(self, interp, obj):
         # other tasks insert / remove / block / unblock streams while this one is suspended
